@@ -3,10 +3,16 @@ import Exetera.Lemmas.JoinBULoop
 import Exetera.Lemmas.GenKernelsJoin
 import Exetera.Lemmas.GenKernelsJoinGeneral
 import Exetera.Lemmas.JoinGeneralLoop
+import Exetera.Lemmas.GenKernelsJoinInnerUnique
+import Exetera.Lemmas.GenKernelsJoinLeftUnique
+import Exetera.Lemmas.GenKernelsJoinInnerGeneral
+import Exetera.Lemmas.JoinLULoop
+import Exetera.Lemmas.JoinRULoop
+import Exetera.Lemmas.JoinTail
 /-!
   C03 over the TRANSLATED join kernels (`Gen/Kernels.lean`, regenerated from operations.py by tools/translate_njit.py on
-  every run): `generate_ordered_map_to_left_both_unique_partial`, `generate_ordered_map_to_left_remaining`,
-  `generate_ordered_map_to_left_right_unique_remaining`.
+  every run): all eight `generate_ordered_map_to_{left,inner}{,_left_unique,_right_unique,_both_unique}_partial` kernels,
+  `generate_ordered_map_to_left_remaining` and `generate_ordered_map_to_left_right_unique_remaining`.
 
   The model (`Model/Join.lean`) keeps the two chunk-sized result buffers as the lists of values written so far; the translated
   kernels, like the code, write position `r` of fixed-size arrays.  `gen_*_ok`: every `.ok` run of the model's kernel loop
@@ -104,6 +110,213 @@ example : generate_ordered_map_to_left_right_unique_remaining.run 3 [9, 9] 2 1 (
 /-- the hypotheses of the three transfer theorems are met by concrete runs of the model -/
 example : ∃ k', runPartial .leftBU ⟨[1, 3, 5], [3, 4, 5], 3, 3, 4, 0, 10, -1⟩ {} = .ok k' ∧ k'.rb = [-1, 10, 12] := ⟨_, rfl, rfl⟩
 example : ∃ k', runRemaining ⟨[], [], 3, 0, 2, 100, 0, -1⟩ { i := 1 } = .ok k' ∧ k'.lb = [101, 102] ∧ k'.rb = [-1, -1] :=
+  ⟨_, rfl, rfl, rfl⟩
+
+/-! ### the remaining six `_partial` kernels: transfer from the model, and one driver call under the proof's global invariant -/
+
+theorem gen_left_left_unique_partial_ok (p : P) (k k' : K) (lbuf rbuf : List Int)
+    (hl : lbuf.length = p.cap) (hr : rbuf.length = p.cap) (hlen : k.lb.length = k.rb.length)
+    (h1 : lbuf.take k.rb.length = k.lb) (h2 : rbuf.take k.rb.length = k.rb)
+    (h : runPartial .leftLU p k = .ok k') :
+    ∃ lbuf' rbuf', generate_ordered_map_to_left_left_unique_partial.run p.left p.right p.jMax lbuf rbuf p.inv p.iOff p.jOff
+        k.i k.j k.rb.length (partialFuel p) = .ok ((k'.i : Int), (k'.j : Int), (k'.rb.length : Int), lbuf', rbuf') ∧
+      lbuf'.length = p.cap ∧ rbuf'.length = p.cap ∧ lbuf'.take k'.rb.length = k'.lb ∧ rbuf'.take k'.rb.length = k'.rb :=
+  left_left_unique_partial_ok p k k' lbuf rbuf hl hr hlen h1 h2 h
+
+/-- the kernel has no `l_result`: only the model's `rb` is observed -/
+theorem gen_left_right_unique_partial_ok (p : P) (k k' : K) (rbuf : List Int)
+    (hr : rbuf.length = p.cap) (h2 : rbuf.take k.rb.length = k.rb) (h : runPartial .leftRU p k = .ok k') :
+    ∃ rbuf', generate_ordered_map_to_left_right_unique_partial.run p.left p.iMax p.right rbuf p.inv p.jOff
+        k.i k.j k.rb.length (partialFuel p) = .ok ((k'.i : Int), (k'.j : Int), (k'.rb.length : Int), rbuf') ∧
+      rbuf'.length = p.cap ∧ rbuf'.take k'.rb.length = k'.rb :=
+  left_right_unique_partial_ok p k k' rbuf hr h2 h
+
+theorem gen_inner_partial_ok (p : P) (k k' : K) (lbuf rbuf : List Int)
+    (hl : lbuf.length = p.cap) (hr : rbuf.length = p.cap) (hlen : k.lb.length = k.rb.length)
+    (h1 : lbuf.take k.rb.length = k.lb) (h2 : rbuf.take k.rb.length = k.rb)
+    (h : runPartial .inner p k = .ok k') :
+    ∃ lbuf' rbuf', generate_ordered_map_to_inner_partial.run p.left p.iMax p.right p.jMax lbuf rbuf p.iOff p.jOff k.i k.j
+        k.rb.length k.ii k.jj k.iiMax k.jjMax k.inner (partialFuel p)
+        = .ok ((k'.i : Int), (k'.j : Int), (k'.rb.length : Int), (k'.ii : Int), (k'.jj : Int), k'.iiMax, k'.jjMax, k'.inner,
+               lbuf', rbuf') ∧
+      lbuf'.length = p.cap ∧ rbuf'.length = p.cap ∧ lbuf'.take k'.rb.length = k'.lb ∧ rbuf'.take k'.rb.length = k'.rb :=
+  inner_partial_ok p k k' lbuf rbuf hl hr hlen h1 h2 h
+
+theorem gen_inner_left_unique_partial_ok (p : P) (k k' : K) (lbuf rbuf : List Int)
+    (hl : lbuf.length = p.cap) (hr : rbuf.length = p.cap) (hlen : k.lb.length = k.rb.length)
+    (h1 : lbuf.take k.rb.length = k.lb) (h2 : rbuf.take k.rb.length = k.rb)
+    (h : runPartial .innerLU p k = .ok k') :
+    ∃ lbuf' rbuf', generate_ordered_map_to_inner_left_unique_partial.run p.left p.iMax p.right p.jMax lbuf rbuf p.iOff p.jOff
+        k.i k.j k.rb.length (partialFuel p) = .ok ((k'.i : Int), (k'.j : Int), (k'.rb.length : Int), lbuf', rbuf') ∧
+      lbuf'.length = p.cap ∧ rbuf'.length = p.cap ∧ lbuf'.take k'.rb.length = k'.lb ∧ rbuf'.take k'.rb.length = k'.rb :=
+  inner_left_unique_partial_ok p k k' lbuf rbuf hl hr hlen h1 h2 h
+
+theorem gen_inner_right_unique_partial_ok (p : P) (k k' : K) (lbuf rbuf : List Int)
+    (hl : lbuf.length = p.cap) (hr : rbuf.length = p.cap) (hlen : k.lb.length = k.rb.length)
+    (h1 : lbuf.take k.rb.length = k.lb) (h2 : rbuf.take k.rb.length = k.rb)
+    (h : runPartial .innerRU p k = .ok k') :
+    ∃ lbuf' rbuf', generate_ordered_map_to_inner_right_unique_partial.run p.left p.iMax p.right p.jMax lbuf rbuf p.iOff p.jOff
+        k.i k.j k.rb.length (partialFuel p) = .ok ((k'.i : Int), (k'.j : Int), (k'.rb.length : Int), lbuf', rbuf') ∧
+      lbuf'.length = p.cap ∧ rbuf'.length = p.cap ∧ lbuf'.take k'.rb.length = k'.lb ∧ rbuf'.take k'.rb.length = k'.rb :=
+  inner_right_unique_partial_ok p k k' lbuf rbuf hl hr hlen h1 h2 h
+
+theorem gen_inner_both_unique_partial_ok (p : P) (k k' : K) (lbuf rbuf : List Int)
+    (hl : lbuf.length = p.cap) (hr : rbuf.length = p.cap) (hlen : k.lb.length = k.rb.length)
+    (h1 : lbuf.take k.rb.length = k.lb) (h2 : rbuf.take k.rb.length = k.rb)
+    (h : runPartial .innerBU p k = .ok k') :
+    ∃ lbuf' rbuf', generate_ordered_map_to_inner_both_unique_partial.run p.left p.iMax p.right p.jMax lbuf rbuf p.iOff p.jOff
+        k.i k.j k.rb.length (partialFuel p) = .ok ((k'.i : Int), (k'.j : Int), (k'.rb.length : Int), lbuf', rbuf') ∧
+      lbuf'.length = p.cap ∧ rbuf'.length = p.cap ∧ lbuf'.take k'.rb.length = k'.lb ∧ rbuf'.take k'.rb.length = k'.rb :=
+  inner_both_unique_partial_ok p k k' lbuf rbuf hl hr hlen h1 h2 h
+
+/-- one `_partial` call of the left-unique LEFT driver executed by the TRANSLATED kernel, from any driver state satisfying the
+    proof's global invariant `LU.UInv` (left keys strictly increasing, right keys sorted): returns normally with the model's state
+    and written prefixes, keeps the invariant, leaves the loop guard false -/
+theorem gen_llu_partial_call {L R : List Int} {cs : Nat} {inv : Int} (hL : L.Pairwise (· < ·)) (hR : Spec.Sorted R)
+    (d : D) (hinv : LU.UInv true L R cs inv d) (lbuf rbuf : List Int) (hl : lbuf.length = cs) (hr : rbuf.length = cs)
+    (h1 : lbuf.take d.k.rb.length = d.k.lb) (h2 : rbuf.take d.k.rb.length = d.k.rb) :
+    ∃ k' lbuf' rbuf', generate_ordered_map_to_left_left_unique_partial.run d.lch.data d.rch.data d.jMax lbuf rbuf inv d.lch.lo
+        d.rch.lo d.k.i d.k.j d.k.rb.length (partialFuel (mkP L R cs inv d))
+        = .ok ((k'.i : Int), (k'.j : Int), (k'.rb.length : Int), lbuf', rbuf') ∧
+      lbuf'.length = cs ∧ rbuf'.length = cs ∧ lbuf'.take k'.rb.length = k'.lb ∧ rbuf'.take k'.rb.length = k'.rb ∧
+      LU.UInv true L R cs inv { d with k := k' } ∧ partialGuard .leftLU (mkP L R cs inv d) k' = false := by
+  obtain ⟨k', hrun, hI, hg, _, _⟩ := LU.unique_partial (emit := true) hL hR d hinv
+  have hv : LU.uvariant true = Variant.leftLU := rfl
+  rw [hv] at hrun hg
+  obtain ⟨lbuf', rbuf', hgen, hl', hr', ht1, ht2⟩ :=
+    left_left_unique_partial_ok (mkP L R cs inv d) d.k k' lbuf rbuf hl hr hinv.blen h1 h2 hrun
+  exact ⟨k', lbuf', rbuf', hgen, hl', hr', ht1, ht2, hI, hg⟩
+
+/-- the same for the left-unique INNER driver -/
+theorem gen_ilu_partial_call {L R : List Int} {cs : Nat} {inv : Int} (hL : L.Pairwise (· < ·)) (hR : Spec.Sorted R)
+    (d : D) (hinv : LU.UInv false L R cs inv d) (lbuf rbuf : List Int) (hl : lbuf.length = cs) (hr : rbuf.length = cs)
+    (h1 : lbuf.take d.k.rb.length = d.k.lb) (h2 : rbuf.take d.k.rb.length = d.k.rb) :
+    ∃ k' lbuf' rbuf', generate_ordered_map_to_inner_left_unique_partial.run d.lch.data d.iMax d.rch.data d.jMax lbuf rbuf d.lch.lo
+        d.rch.lo d.k.i d.k.j d.k.rb.length (partialFuel (mkP L R cs inv d))
+        = .ok ((k'.i : Int), (k'.j : Int), (k'.rb.length : Int), lbuf', rbuf') ∧
+      lbuf'.length = cs ∧ rbuf'.length = cs ∧ lbuf'.take k'.rb.length = k'.lb ∧ rbuf'.take k'.rb.length = k'.rb ∧
+      LU.UInv false L R cs inv { d with k := k' } ∧ partialGuard .innerLU (mkP L R cs inv d) k' = false := by
+  obtain ⟨k', hrun, hI, hg, _, _⟩ := LU.unique_partial (emit := false) hL hR d hinv
+  have hv : LU.uvariant false = Variant.innerLU := rfl
+  rw [hv] at hrun hg
+  obtain ⟨lbuf', rbuf', hgen, hl', hr', ht1, ht2⟩ :=
+    inner_left_unique_partial_ok (mkP L R cs inv d) d.k k' lbuf rbuf hl hr hinv.blen h1 h2 hrun
+  exact ⟨k', lbuf', rbuf', hgen, hl', hr', ht1, ht2, hI, hg⟩
+
+/-- one `_partial` call of the right-unique LEFT driver (left keys sorted, right keys strictly increasing; `RU.UInv`) -/
+theorem gen_lru_partial_call {L R : List Int} {cs : Nat} {inv : Int} (hL : Spec.Sorted L) (hR : R.Pairwise (· < ·))
+    (d : D) (hinv : RU.UInv true L R cs inv d) (rbuf : List Int) (hr : rbuf.length = cs)
+    (h2 : rbuf.take d.k.rb.length = d.k.rb) :
+    ∃ k' rbuf', generate_ordered_map_to_left_right_unique_partial.run d.lch.data d.iMax d.rch.data rbuf inv d.rch.lo
+        d.k.i d.k.j d.k.rb.length (partialFuel (mkP L R cs inv d))
+        = .ok ((k'.i : Int), (k'.j : Int), (k'.rb.length : Int), rbuf') ∧
+      rbuf'.length = cs ∧ rbuf'.take k'.rb.length = k'.rb ∧
+      RU.UInv true L R cs inv { d with k := k' } ∧ partialGuard .leftRU (mkP L R cs inv d) k' = false := by
+  obtain ⟨k', hrun, hI, hg, _, _⟩ := RU.ru_partial (emit := true) hL hR d hinv
+  have hv : RU.ruvariant true = Variant.leftRU := rfl
+  rw [hv] at hrun hg
+  obtain ⟨rbuf', hgen, hr', ht2⟩ := left_right_unique_partial_ok (mkP L R cs inv d) d.k k' rbuf hr h2 hrun
+  exact ⟨k', rbuf', hgen, hr', ht2, hI, hg⟩
+
+/-- the same for the right-unique INNER driver (both result buffers) -/
+theorem gen_iru_partial_call {L R : List Int} {cs : Nat} {inv : Int} (hL : Spec.Sorted L) (hR : R.Pairwise (· < ·))
+    (d : D) (hinv : RU.UInv false L R cs inv d) (lbuf rbuf : List Int) (hl : lbuf.length = cs) (hr : rbuf.length = cs)
+    (h1 : lbuf.take d.k.rb.length = d.k.lb) (h2 : rbuf.take d.k.rb.length = d.k.rb) :
+    ∃ k' lbuf' rbuf', generate_ordered_map_to_inner_right_unique_partial.run d.lch.data d.iMax d.rch.data d.jMax lbuf rbuf d.lch.lo
+        d.rch.lo d.k.i d.k.j d.k.rb.length (partialFuel (mkP L R cs inv d))
+        = .ok ((k'.i : Int), (k'.j : Int), (k'.rb.length : Int), lbuf', rbuf') ∧
+      lbuf'.length = cs ∧ rbuf'.length = cs ∧ lbuf'.take k'.rb.length = k'.lb ∧ rbuf'.take k'.rb.length = k'.rb ∧
+      RU.UInv false L R cs inv { d with k := k' } ∧ partialGuard .innerRU (mkP L R cs inv d) k' = false := by
+  obtain ⟨k', hrun, hI, hg, _, _⟩ := RU.ru_partial (emit := false) hL hR d hinv
+  have hv : RU.ruvariant false = Variant.innerRU := rfl
+  rw [hv] at hrun hg
+  obtain ⟨lbuf', rbuf', hgen, hl', hr', ht1, ht2⟩ :=
+    inner_right_unique_partial_ok (mkP L R cs inv d) d.k k' lbuf rbuf hl hr hinv.blen h1 h2 hrun
+  exact ⟨k', lbuf', rbuf', hgen, hl', hr', ht1, ht2, hI, hg⟩
+
+/-- one `_partial` call of the both-unique INNER driver (`BInv false`) -/
+theorem gen_ibu_partial_call {L R : List Int} {cs : Nat} {inv : Int} (hL : L.Pairwise (· < ·)) (hR : R.Pairwise (· < ·))
+    (d : D) (hinv : BInv false L R cs inv d) (lbuf rbuf : List Int) (hl : lbuf.length = cs) (hr : rbuf.length = cs)
+    (h1 : lbuf.take d.k.rb.length = d.k.lb) (h2 : rbuf.take d.k.rb.length = d.k.rb) :
+    ∃ k' lbuf' rbuf', generate_ordered_map_to_inner_both_unique_partial.run d.lch.data d.iMax d.rch.data d.jMax lbuf rbuf d.lch.lo
+        d.rch.lo d.k.i d.k.j d.k.rb.length (partialFuel (mkP L R cs inv d))
+        = .ok ((k'.i : Int), (k'.j : Int), (k'.rb.length : Int), lbuf', rbuf') ∧
+      lbuf'.length = cs ∧ rbuf'.length = cs ∧ lbuf'.take k'.rb.length = k'.lb ∧ rbuf'.take k'.rb.length = k'.rb ∧
+      BInv false L R cs inv { d with k := k' } ∧ partialGuard .innerBU (mkP L R cs inv d) k' = false := by
+  obtain ⟨k', hrun, hI, hg, _, _⟩ := bu_partial (emit := false) hL hR d hinv
+  have hv : bvariant false = Variant.innerBU := rfl
+  rw [hv] at hrun hg
+  obtain ⟨lbuf', rbuf', hgen, hl', hr', ht1, ht2⟩ :=
+    inner_both_unique_partial_ok (mkP L R cs inv d) d.k k' lbuf rbuf hl hr hinv.blen h1 h2 hrun
+  exact ⟨k', lbuf', rbuf', hgen, hl', hr', ht1, ht2, hI, hg⟩
+
+/-- one `_partial` call of the GENERAL inner driver (`GInv false`) -/
+theorem gen_inner_general_partial_call {L R : List Int} {cs : Nat} {inv : Int} (hL : Spec.Sorted L) (hR : Spec.Sorted R)
+    (d : D) (hinv : GInv false L R cs inv d) (lbuf rbuf : List Int) (hl : lbuf.length = cs) (hr : rbuf.length = cs)
+    (h1 : lbuf.take d.k.rb.length = d.k.lb) (h2 : rbuf.take d.k.rb.length = d.k.rb) :
+    ∃ k' lbuf' rbuf', generate_ordered_map_to_inner_partial.run d.lch.data d.iMax d.rch.data d.jMax lbuf rbuf d.lch.lo d.rch.lo
+        d.k.i d.k.j d.k.rb.length d.k.ii d.k.jj d.k.iiMax d.k.jjMax d.k.inner (partialFuel (mkP L R cs inv d))
+        = .ok ((k'.i : Int), (k'.j : Int), (k'.rb.length : Int), (k'.ii : Int), (k'.jj : Int), k'.iiMax, k'.jjMax, k'.inner,
+               lbuf', rbuf') ∧
+      lbuf'.length = cs ∧ rbuf'.length = cs ∧ lbuf'.take k'.rb.length = k'.lb ∧ rbuf'.take k'.rb.length = k'.rb ∧
+      GInv false L R cs inv { d with k := k' } ∧ partialGuard .inner (mkP L R cs inv d) k' = false := by
+  obtain ⟨k', hrun, hI, hg, _, _⟩ := general_partial (emit := false) hL hR d hinv
+  have hv : gvariant false = Variant.inner := rfl
+  rw [hv] at hrun hg
+  obtain ⟨lbuf', rbuf', hgen, hl', hr', ht1, ht2⟩ :=
+    inner_partial_ok (mkP L R cs inv d) d.k k' lbuf rbuf hl hr hinv.blen h1 h2 hrun
+  exact ⟨k', lbuf', rbuf', hgen, hl', hr', ht1, ht2, hI, hg⟩
+
+/-- one `_remaining` call of the tail loop of a left driver (general / left-unique: both buffers) executed by the TRANSLATED
+    kernel under the tail invariant `TInv`: returns normally with the model's `i`, `r` and written prefixes, keeps the invariant,
+    leaves the kernel's loop guard false -/
+theorem gen_left_remaining_call {L R : List Int} {cs : Nat} {inv : Int} (hL : Spec.Sorted L) (hR : Spec.Sorted R)
+    (d : D) (hinv : TInv L R cs inv d) (lbuf rbuf : List Int) (hl : lbuf.length = cs) (hr : rbuf.length = cs)
+    (h1 : lbuf.take d.k.rb.length = d.k.lb) (h2 : rbuf.take d.k.rb.length = d.k.rb) :
+    ∃ k' lbuf' rbuf', generate_ordered_map_to_left_remaining.run d.iMax lbuf rbuf d.lch.lo d.k.i d.k.rb.length inv (d.iMax + 1)
+        = .ok ((k'.i : Int), (k'.rb.length : Int), lbuf', rbuf') ∧
+      lbuf'.length = cs ∧ rbuf'.length = cs ∧ lbuf'.take k'.rb.length = k'.lb ∧ rbuf'.take k'.rb.length = k'.rb ∧
+      TInv L R cs inv { d with k := k' } ∧ (decide (k'.i < d.iMax) && decide (k'.r < cs)) = false := by
+  obtain ⟨k', hrun, hI, hg, _, _⟩ := remaining_run hL hR d hinv
+  obtain ⟨lbuf', rbuf', hgen, hl', hr', ht1, ht2⟩ :=
+    left_remaining_ok (mkP L R cs inv d) d.k k' lbuf rbuf hl hr hinv.blen h1 h2 hrun
+  exact ⟨k', lbuf', rbuf', hgen, hl', hr', ht1, ht2, hI, hg⟩
+
+/-- the same for the right-unique / both-unique left drivers, whose `_remaining` kernel writes `r_result` only -/
+theorem gen_right_unique_remaining_call {L R : List Int} {cs : Nat} {inv : Int} (hL : Spec.Sorted L) (hR : Spec.Sorted R)
+    (d : D) (hinv : TInv L R cs inv d) (rbuf : List Int) (hr : rbuf.length = cs) (h2 : rbuf.take d.k.rb.length = d.k.rb) :
+    ∃ k' rbuf', generate_ordered_map_to_left_right_unique_remaining.run d.iMax rbuf d.k.i d.k.rb.length inv (d.iMax + 1)
+        = .ok ((k'.i : Int), (k'.rb.length : Int), rbuf') ∧
+      rbuf'.length = cs ∧ rbuf'.take k'.rb.length = k'.rb ∧
+      TInv L R cs inv { d with k := k' } ∧ (decide (k'.i < d.iMax) && decide (k'.r < cs)) = false := by
+  obtain ⟨k', hrun, hI, hg, _, _⟩ := remaining_run hL hR d hinv
+  obtain ⟨rbuf', hgen, hr', ht2⟩ := right_unique_remaining_ok (mkP L R cs inv d) d.k k' rbuf hr h2 hrun
+  exact ⟨k', rbuf', hgen, hr', ht2, hI, hg⟩
+
+/-! concrete runs: the translated kernels on small inputs, and the model runs that meet the hypotheses of the transfer theorems -/
+example : generate_ordered_map_to_left_left_unique_partial.run [1, 2, 4] [2, 2, 3] 3 [7, 7, 7, 7] [8, 8, 8, 8] (-1) 0 10 0 0 0 40
+    = .ok (2, 3, 3, [0, 1, 1, 7], [-1, 10, 11, 8]) := rfl
+example : ∃ k', runPartial .leftLU ⟨[1, 2, 4], [2, 2, 3], 3, 3, 4, 0, 10, -1⟩ {} = .ok k' ∧ k'.lb = [0, 1, 1] ∧ k'.rb = [-1, 10, 11] :=
+  ⟨_, rfl, rfl, rfl⟩
+example : generate_ordered_map_to_left_right_unique_partial.run [1, 2, 2, 4] 4 [2, 3] [8, 8, 8, 8, 8] (-1) 10 0 0 0 40
+    = .ok (3, 2, 3, [-1, 10, 10, 8, 8]) := rfl
+example : ∃ k', runPartial .leftRU ⟨[1, 2, 2, 4], [2, 3], 4, 2, 5, 0, 10, -1⟩ {} = .ok k' ∧ k'.rb = [-1, 10, 10] :=
+  ⟨_, rfl, rfl⟩
+example : generate_ordered_map_to_inner_partial.run [1, 2, 2] 3 [2, 2, 3] 3 [7, 7, 7, 7, 7] [8, 8, 8, 8, 8] 0 10 0 0 0 0 0 (-1) (-1)
+    false 40 = .ok (3, 2, 4, 0, 0, -1, -1, false, [1, 1, 2, 2, 7], [10, 11, 10, 11, 8]) := rfl
+example : ∃ k', runPartial .inner ⟨[1, 2, 2], [2, 2, 3], 3, 3, 5, 0, 10, -1⟩ {} = .ok k' ∧ k'.lb = [1, 1, 2, 2] ∧
+    k'.rb = [10, 11, 10, 11] := ⟨_, rfl, rfl, rfl⟩
+example : generate_ordered_map_to_inner_left_unique_partial.run [1, 2, 4] 3 [2, 2, 3] 3 [7, 7, 7] [8, 8, 8] 0 10 0 0 0 40
+    = .ok (2, 3, 2, [1, 1, 7], [10, 11, 8]) := rfl
+example : ∃ k', runPartial .innerLU ⟨[1, 2, 4], [2, 2, 3], 3, 3, 3, 0, 10, -1⟩ {} = .ok k' ∧ k'.lb = [1, 1] ∧ k'.rb = [10, 11] :=
+  ⟨_, rfl, rfl, rfl⟩
+example : generate_ordered_map_to_inner_right_unique_partial.run [1, 2, 2, 4] 4 [2, 3] 2 [7, 7, 7] [8, 8, 8] 0 10 0 0 0 40
+    = .ok (3, 2, 2, [1, 2, 7], [10, 10, 8]) := rfl
+example : ∃ k', runPartial .innerRU ⟨[1, 2, 2, 4], [2, 3], 4, 2, 3, 0, 10, -1⟩ {} = .ok k' ∧ k'.lb = [1, 2] ∧ k'.rb = [10, 10] :=
+  ⟨_, rfl, rfl, rfl⟩
+example : generate_ordered_map_to_inner_both_unique_partial.run [1, 3, 5] 3 [3, 4, 5] 3 [7, 7, 7] [8, 8, 8] 0 10 0 0 0 40
+    = .ok (3, 3, 2, [1, 2, 7], [10, 12, 8]) := rfl
+example : ∃ k', runPartial .innerBU ⟨[1, 3, 5], [3, 4, 5], 3, 3, 3, 0, 10, -1⟩ {} = .ok k' ∧ k'.lb = [1, 2] ∧ k'.rb = [10, 12] :=
   ⟨_, rfl, rfl, rfl⟩
 
 end Exetera.Props.C03Gen
